@@ -119,6 +119,9 @@ pub fn check(c: &Case, obs: &mut Obs) -> Result<(), String> {
             if got != want {
                 return Err(format!("Dewey {:?} matches({:?}) = {}, model says {}", p, n, got, want));
             }
+            if d.matches(n) != got {
+                return Err(format!("Dewey {:?} matches({:?}) answers differently the second time", p, n));
+            }
             obs.class(if want { "match" } else { "no-match" });
             obs.class(if dm.bounds.len() == 2 { "two-bounds" } else { "one-bound" });
             if let Some(pos) = n.rfind('-') {
